@@ -6,6 +6,9 @@ use lsp_types::{
     GotoDefinitionParams, Location,
 };
 use spl_frontend::{
+    ast::{
+        GlobalDeclaration, ParameterDeclaration, Program, TypeExpression, VariableDeclaration,
+    },
     table::{DataType, Entry, GlobalEntry, LookupTable, SymbolTable},
     ToRange, ToTextRange,
 };
@@ -135,11 +138,23 @@ pub async fn type_definition(
                                 Entry::Procedure(_) => { /* no type definition */ }
                                 Entry::Variable(v) | Entry::Parameter(v) => {
                                     if let Some(DataType::Array { creator, .. }) = &v.data_type {
-                                        // an anonymous array type is created by the variable itself,
-                                        // so there is no type declaration to go to
+                                        // An anonymous array type is created by the variable itself,
+                                        // so there is no type declaration to go to.
+                                        // A type with the name of the variable is something else.
+                                        if declares_anonymous_array(
+                                            &doc.ast,
+                                            &p.name.value,
+                                            &v.name.value,
+                                        ) {
+                                            return Ok(None);
+                                        }
                                         if let Some(entry @ GlobalEntry::Type(t)) =
                                             doc.table.lookup(creator)
                                         {
+                                            // early return for default values
+                                            if Entry::from(entry).is_default() {
+                                                return Ok(None);
+                                            }
                                             return Ok(Some(Location {
                                                 uri,
                                                 range: as_pos_range(
@@ -159,6 +174,40 @@ pub async fn type_definition(
         }
     }
     Ok(None)
+}
+
+/// True if the type of the variable or parameter is written down as an array type,
+/// instead of being the name of a type declaration.
+fn declares_anonymous_array(program: &Program, proc_name: &str, var_name: &str) -> bool {
+    let is_name = |name: &Option<spl_frontend::ast::Identifier>| {
+        name.as_ref().is_some_and(|name| name.value == var_name)
+    };
+    let is_array = |type_expr: &Option<spl_frontend::ast::Reference<TypeExpression>>| {
+        matches!(
+            type_expr.as_ref().map(|type_expr| type_expr.as_ref()),
+            Some(TypeExpression::ArrayType { .. })
+        )
+    };
+    program
+        .global_declarations
+        .iter()
+        .filter_map(|gd| match gd.as_ref() {
+            GlobalDeclaration::Procedure(pd)
+                if pd.name.as_ref().is_some_and(|name| name.value == proc_name) =>
+            {
+                Some(pd)
+            }
+            _ => None,
+        })
+        .any(|pd| {
+            pd.parameters.iter().any(|param| {
+                matches!(param.as_ref(), ParameterDeclaration::Valid { name, type_expr, .. }
+                    if is_name(name) && is_array(type_expr))
+            }) || pd.variable_declarations.iter().any(|var| {
+                matches!(var.as_ref(), VariableDeclaration::Valid { name, type_expr, .. }
+                    if is_name(name) && is_array(type_expr))
+            })
+        })
 }
 
 /// Essentially the same as `goto::declaration`, but only for procedures
